@@ -1,0 +1,109 @@
+//go:build verif
+
+package cty
+
+// Contracts for govc (see /verif/DESIGN.md). Comment-only file: it adds no code.
+//
+//@ func (cty.Value).IsMarked
+//@   tags C04
+//@   ensures (= result (is_marked val))
+//
+//@ func (cty.Value).HasMark
+//@   tags C04
+//@   ensures (= result (select (marks_of val) mark))
+//
+//@ func (cty.Value).Marks
+//@   tags C04 C20
+//@   requires (wf_marks val)
+//@   fresh result when (is_marked val)
+//@   ensures nomark: (=> (not (is_marked val)) (= result 0))
+//@   ensures[C04,C20] copy: (=> (is_marked val) (= (MapC<Any~Unit>.dom (select $H<MapC<Any~Unit>> result)) (marks_of val)))
+//@   ensures card: (=> (is_marked val) (= (MapC<Any~Unit>.card (select $H<MapC<Any~Unit>> result)) (MapC<Any~Unit>.card (select F.MapC<Any~Unit> (marks_ptr val)))))
+//@   loop 1 invariant (forall ((k Any)) (= (select (MapC<Any~Unit>.dom (select $H<MapC<Any~Unit>> ret)) k) (select $visited k)))
+//@   loop 1 invariant (MapC<Any~Unit>.ok (select $H<MapC<Any~Unit>> ret))
+//
+//@ func (cty.Value).Unmark
+//@   tags C04
+//@   requires (wf_marks val)
+//@   fresh result.1 when (is_marked val)
+//@   ensures[C04] r0: (= result.0 (unmark val))
+//@   ensures[C04] nomark: (=> (not (is_marked val)) (and (= result.0 val) (= result.1 0)))
+//@   ensures[C04] marks: (=> (is_marked val) (= (MapC<Any~Unit>.dom (select $H<MapC<Any~Unit>> result.1)) (marks_of val)))
+//
+//@ func (cty.Value).unmarkForce
+//@   tags C04
+//@   requires (wf_marks val)
+//@   ensures (= result (unmark val))
+//
+//@ func (cty.Value).IsKnown
+//@   tags C01
+//@   requires (wf_marks val)
+//@   ensures (= result (is_known val))
+//
+//@ func (cty.Value).IsNull
+//@   tags C01
+//@   requires (wf_marks val)
+//@   ensures (= result (is_null val))
+//
+//@ func (cty.Value).WithMarks
+//@   tags C04
+//@   requires (wf_marks val)
+//@   requires (marksets_ok marks (Slice.len marks))
+//@   requires (<= (Slice.len marks) 1048576)
+//@   let own (marks_of val)
+//@   ensures[C04] none: (=> (= (Slice.len marks) 0) (= result val))
+//@   ensures[C04] empty: (=> (and (not (is_marked val)) (marksets_empty marks (Slice.len marks))) (= result val))
+//@   ensures[C04] payload: (and (= (cty.Value.ty result) (cty.Value.ty val)) (= (inner_v result) (inner_v val)))
+//@   ensures[C04] union: (forall ((k Any)) (= (select (marks_of result) k) (or (select (marks_of val) k) (in_any_markset marks (Slice.len marks) k))))
+//@   ensures[C04,C06] wf: (wf_marks result)
+//@   loop 1 invariant (and (<= 0 markCount) (<= markCount (* (+ $i 1) 1099511627776)))
+//@   loop 1 invariant (=> (= markCount 0) (and (not (is_marked val)) (marksets_empty marks $i)))
+//@   loop 1 invariant (=> (and (not (is_marked val)) (marksets_empty marks $i)) (= markCount 0))
+//@   loop 2 invariant (forall ((k Any)) (= (select (MapC<Any~Unit>.dom (select $H<MapC<Any~Unit>> newMarks)) k) (select $visited k)))
+//@   loop 2 invariant (MapC<Any~Unit>.ok (select $H<MapC<Any~Unit>> newMarks))
+//@   loop 3 invariant (forall ((k Any)) (= (select (MapC<Any~Unit>.dom (select $H<MapC<Any~Unit>> newMarks)) k) (or (select (marks_of val) k) (in_any_markset marks $i k))))
+//@   loop 3 invariant (MapC<Any~Unit>.ok (select $H<MapC<Any~Unit>> newMarks))
+//@   loop 4 invariant (forall ((k Any)) (= (select (MapC<Any~Unit>.dom (select $H<MapC<Any~Unit>> newMarks)) k) (or (select (marks_of val) k) (in_any_markset marks $i@3 k) (select $visited k))))
+//@   loop 4 invariant (MapC<Any~Unit>.ok (select $H<MapC<Any~Unit>> newMarks))
+//
+//@ func (cty.Value).Mark
+//@   tags C04
+//@   requires (wf_marks val)
+//@   panics ((_ is box<cty.ValueMarks>) mark)
+//@   ensures[C04] payload: (and (= (cty.Value.ty result) (cty.Value.ty val)) (= (inner_v result) (inner_v val)))
+//@   ensures[C04] marks: (forall ((k Any)) (= (select (marks_of result) k) (or (select (marks_of val) k) (= k mark))))
+//@   ensures[C04,C06] wf: (wf_marks result)
+//@   loop 1 invariant (forall ((k Any)) (= (select (MapC<Any~Unit>.dom (select $H<MapC<Any~Unit>> (cty.marker.marks newMarker))) k) (select $visited k)))
+//@   loop 1 invariant (MapC<Any~Unit>.ok (select $H<MapC<Any~Unit>> (cty.marker.marks newMarker)))
+//@   loop 1 invariant (and (< (cty.marker.marks newMarker) 0) (= (cty.marker.realV newMarker) (cty.Value.v val)))
+//
+//@ func (cty.ValueMarks).Equal
+//@   tags C04
+//@   requires (and (MapC<Any~Unit>.ok (select F.MapC<Any~Unit> m)) (MapC<Any~Unit>.ok (select F.MapC<Any~Unit> o)))
+//@   ensures[C04] (= result (= (fmarks m) (fmarks o)))
+//@   loop 1 invariant (sub<Any> $visited (fmarks o))
+//
+//@ func (cty.Value).HasSameMarks
+//@   tags C04
+//@   requires (and (wf_marks val) (wf_marks other))
+//@   ensures[C04] (= result (= (marks_of val) (marks_of other)))
+//
+//@ func (cty.Value).WithSameMarks
+//@   tags C04
+//@   requires (wf_marks val)
+//@   requires (vals_wf_marks srcs (Slice.len srcs))
+//@   requires (<= (Slice.len srcs) 1048576)
+//@   ensures[C04] none: (=> (= (Slice.len srcs) 0) (= result val))
+//@   ensures[C04] empty: (=> (and (not (is_marked val)) (vals_unmarked srcs (Slice.len srcs))) (= result val))
+//@   ensures[C04] payload: (and (= (cty.Value.ty result) (cty.Value.ty val)) (= (inner_v result) (inner_v val)))
+//@   ensures[C04] union: (forall ((k Any)) (= (select (marks_of result) k) (or (select (marks_of val) k) (in_any_valmarks srcs (Slice.len srcs) k))))
+//@   ensures[C04,C06] wf: (wf_marks result)
+//@   loop 1 invariant (and (<= 0 markCount) (<= markCount (* (+ $i 1) 1099511627776)))
+//@   loop 1 invariant (=> (= markCount 0) (and (not (is_marked val)) (vals_unmarked srcs $i)))
+//@   loop 1 invariant (=> (and (not (is_marked val)) (vals_unmarked srcs $i)) (= markCount 0))
+//@   loop 2 invariant (forall ((k Any)) (= (select (MapC<Any~Unit>.dom (select $H<MapC<Any~Unit>> newMarks)) k) (select $visited k)))
+//@   loop 2 invariant (MapC<Any~Unit>.ok (select $H<MapC<Any~Unit>> newMarks))
+//@   loop 3 invariant (forall ((k Any)) (= (select (MapC<Any~Unit>.dom (select $H<MapC<Any~Unit>> newMarks)) k) (or (select (marks_of val) k) (in_any_valmarks srcs $i k))))
+//@   loop 3 invariant (MapC<Any~Unit>.ok (select $H<MapC<Any~Unit>> newMarks))
+//@   loop 4 invariant (forall ((k Any)) (= (select (MapC<Any~Unit>.dom (select $H<MapC<Any~Unit>> newMarks)) k) (or (select (marks_of val) k) (in_any_valmarks srcs $i@3 k) (select $visited k))))
+//@   loop 4 invariant (MapC<Any~Unit>.ok (select $H<MapC<Any~Unit>> newMarks))
